@@ -112,9 +112,15 @@ impl Check for C15 {
         tier.pick(std::time::Duration::from_secs(150), std::time::Duration::from_secs(1800))
     }
     fn required_counters(&self, _tier: Tier) -> Vec<&'static str> {
-        vec!["chunk:ok-honest", "chunk:substitute-refused", "data:ok-honest", "data:substitution-cases", "vault:ok-authentic", "vault:err", "vault:split-versions-delivered", "vault:forged-majority-cases", "vault:ok-highest-of-several-authentic", "vault:ok-authentic-despite-forged-versions"]
+        vec!["chunk:ok-honest", "chunk:substitute-refused", "data:ok-honest", "data:substitution-cases", "vault:ok-authentic", "vault:err", "vault:split-versions-delivered", "vault:forged-majority-cases", "vault:ok-highest-of-several-authentic", "vault:ok-authentic-despite-forged-versions", "realnet:round-trips-ok", "realnet:holders-serving-substituted-content"]
+    }
+    fn lane_cases(&self, tier: Tier) -> u64 {
+        tier.pick(8, 64)
     }
     fn run_case(&self, cx: &mut Cx) {
+        if cx.index >= LANE_BASE {
+            return crate::realcases::c15_case(cx);
+        }
         match cx.index % 3 {
             0 => chunk_case(cx),
             1 => data_case(cx),
